@@ -207,6 +207,16 @@ Two more for `Engine.infer_type` / `Variable.highest_membership` (profiles `bloc
   stop at the first false (true) one as Python does - an element behind it is not evaluated and cannot raise;
 * `with contextlib.suppress(C): <statements>` is `try: <statements> except C: pass` (the forms of `try` above).
 
+Two entries added for `Operation.str` (profiles `raised.py`):
+
+* `self_call_defaults` (a list of parameter names): a recursive call in expression position that has no hole for such a
+  parameter (`Op.str(x_i)` inside `str(x, delimiter=" ")`) passes the *default value read from the signature in the
+  source*, as Python does - not the caller's value, which is what a parameter without a hole otherwise receives;
+* `return_view` (`{type: template}`): `return e` where `e` is an object of a sum type of the profile and the function
+  returns `ret` (`if isinstance(x, str): return x` in a function that returns a string): the template gives the `ret`
+  value that the object is (the case has been established by the preceding test; what the template yields for the
+  other cases is never looked at by a tie theorem that holds for every object).
+
 Anything outside the subset raises `Untranslatable` - the tie is then reported as broken (never silently skipped).
 """
 from __future__ import annotations
@@ -1317,6 +1327,9 @@ class Fn:
             if s.value is None:
                 return ".ok σ"
             e = self.ce(s.value)
+            if self.ret_ty and e.ty != self.ret_ty and e.ty in self.p.get("return_view", {}):
+                # an object of a sum type of the profile returned where the function returns `ret`: the value it is
+                e = self.bind1(e, lambda x: self.p["return_view"][e.ty].format(paren(x)), self.ret_ty)
             if self.ret_ty and self.ret_ty.startswith("Option "):
                 # the function returns an object or None: ret = some (the optional)
                 inner = self.ret_ty[len("Option "):]
@@ -1640,6 +1653,20 @@ class Fn:
             self.rec_in_loop = True
         return dict(zip(names, argnodes))
 
+    def self_call_default(self, pn, pt):
+        """the default value of the Python parameter `pn`, read from the signature in the source (a recursive call that
+        does not pass the parameter: the callee receives the default, not the caller's value)"""
+        a = self.fdef.args
+        pos = list(a.posonlyargs) + list(a.args)
+        dflt = dict(zip([x.arg for x in pos][len(pos) - len(a.defaults):], a.defaults))
+        dflt.update({x.arg: d for x, d in zip(a.kwonlyargs, a.kw_defaults) if d is not None})
+        if pn not in dflt:
+            raise Untranslatable(f"recursive call: parameter '{pn}' has no default value")
+        e = self.ce(dflt[pn])
+        if not e.pure or e.ty != pt:
+            raise Untranslatable(f"recursive call: the default of '{pn}' has type {e.ty} (expected a pure {pt})")
+        return paren(e.term)
+
     def self_call_expr(self, argnodes):
         """a recursive call inside an expression: arguments left to right (they may raise), then the call; its value"""
         if not self.ret_ty:
@@ -1651,7 +1678,7 @@ class Fn:
         args, binds = [], []
         for i, (pn, pt) in enumerate(self.params):
             if pn not in holes:
-                args.append(pn)
+                args.append(self.self_call_default(pn, pt) if pn in self.p.get("self_call_defaults", []) else pn)
                 continue
             a = self.ce(holes[pn])
             if a.ty in (f"Option {pt}", f"Option {paren(pt)}"):
